@@ -2,8 +2,17 @@
 (* Trace validation for histogramming: every recorded call of the real code        *)
 (* (case + what both engines returned) is judged by the property-level spec of     *)
 (* Hist.tla.  One ndjson line per record:                                          *)
-(*   {"id": k, "c": <case>, "obs": [<observation>, ...]}                           *)
-(* Rejected records are printed with the names of the failing clauses.             *)
+(*   {"id": k, "kind": "case", "c": <case>, "obs": [<observation>, ...]}           *)
+(*   {"id": k, "kind": "history", "h": <history>, "steps": [<step>, ...]}          *)
+(*      step k = what ONE Binner object showed after call k of the history:        *)
+(*      {"obs": [<observation per engine>], "fresh": [BOOLEAN per engine]}         *)
+(*      fresh[e] = the object's result (all keys) is bit-for-bit that of a fresh   *)
+(*      object given only the calls since the last dohist (a relation between two  *)
+(*      implementation outputs, compared by the harness).                          *)
+(* The representation of the data argument, the entry point and the scalar kinds   *)
+(* are carried in the case but no clause mentions them: no value depends on them.  *)
+(* Rejected records are printed with the names of the failing clauses (history:    *)
+(* "<step>:<clause>").                                                             *)
 EXTENDS Hist, Json, IOUtils
 
 VARIABLES blk, tid
@@ -18,15 +27,29 @@ PickTrace == blk > 0 /\ tid = 0
              /\ \E t \in ((blk - 1) * BlockSize + 1)..VMin2(blk * BlockSize, NT) : tid' = t /\ blk' = blk
 Next == PickBlock \/ PickTrace
 
+\* observations that show the same thing must agree (engine equality)
+ObsAgree(obs) ==
+    \A k, m \in DOMAIN obs :
+        (obs[k].err = "none" /\ obs[m].err = "none") =>
+            /\ obs[k].hist = obs[m].hist
+            /\ (obs[k].hasrev /\ obs[m].hasrev) => obs[k].rev = obs[m].rev
+
 \* all observations of one record must be accepted, and they must agree with each
 \* other where they show the same thing (engine equality)
-FailingRec(r) ==
+FailingCase(r) ==
     UNION {Failing(r.c, r.obs[k]) : k \in DOMAIN r.obs} \cup
-    (IF \A k, m \in DOMAIN r.obs :
-           (r.obs[k].err = "none" /\ r.obs[m].err = "none") =>
-              /\ r.obs[k].hist = r.obs[m].hist
-              /\ (r.obs[k].hasrev /\ r.obs[m].hasrev) => r.obs[k].rev = r.obs[m].rev
-     THEN {} ELSE {"engines_differ"})
+    (IF ObsAgree(r.obs) THEN {} ELSE {"engines_differ"})
+
+StepNames == <<"1", "2", "3", "4", "5", "6", "7", "8">>
+FailingStep(h, k, s) ==
+    UNION {HOStepFailing(h, k, s.obs[e]) : e \in DOMAIN s.obs} \cup
+    (IF ObsAgree(s.obs) THEN {} ELSE {"engines_differ"}) \cup
+    (IF \A e \in DOMAIN s.fresh : s.fresh[e] THEN {} ELSE {"reused_object_differs_from_fresh"})
+
+FailingHistory(r) ==
+    UNION {{StepNames[k] \o ":" \o cl : cl \in FailingStep(r.h, k, r.steps[k])} : k \in DOMAIN r.steps}
+
+FailingRec(r) == IF r.kind = "history" THEN FailingHistory(r) ELSE FailingCase(r)
 
 Check == tid > 0 =>
     LET r == Traces[tid]  f == FailingRec(r)
